@@ -91,6 +91,10 @@ def cases(tier, seed):
         if sh["params"] or sh.get("body"):
             # the same shape written with components/{parameters,requestBodies,responses} $refs
             out.append({"shapes": [sh], "strategy": "operationId", "fmt": "json", "refs": True})
+    # a path item that carries `$ref` AND inline operations (both legal); five operations with one operationId sharing a tag client
+    out.append({"special": "pathitem-ref", "strategy": "operationId", "fmt": "json"})
+    for n in (3, 4, 5, 6):
+        out.append({"special": "same-id", "n": n, "strategy": "operationId", "fmt": "json"})
     # naming strategy `clean` with FastAPI-style ids on routes that look like reserved names / start with a digit / use camelCase
     for strategy in ("clean", "operationId", "path"):
         out.append({"routes": ["/config", "/models", "/2fa/verify", "/userProfiles", "/import", "/items/{item_id}/type"], "strategy": strategy, "fmt": "json"})
@@ -115,6 +119,22 @@ def fastapi_id(handler, path, method):
 
 
 def build(case):
+    if case.get("special") == "pathitem-ref":
+        ok = {"204": {"description": "d"}}
+        doc = {"openapi": "3.1.0", "info": {"title": "P", "version": "1"},
+               "paths": {"/items/{id}": {"$ref": "#/components/pathItems/ItemCommon",
+                                         "get": {"operationId": "getItem", "tags": ["admin"], "parameters": [{"name": "id", "in": "path", "required": True, "schema": {"type": "integer"}}], "responses": ok},
+                                         "delete": {"operationId": "deleteItem", "tags": ["admin"], "parameters": [{"name": "id", "in": "path", "required": True, "schema": {"type": "integer"}}], "responses": ok}},
+                         "/ping": {"get": {"operationId": "ping", "tags": ["misc"], "responses": ok}}},
+               "components": {"pathItems": {"ItemCommon": {"summary": "common", "description": "shared description"}}}}
+        cs = [ops.op("get", "/items/{id}", [ops.param("id", "path", True, "integer")], None, {"204": "none"}, ["admin"], "getItem"),
+              ops.op("delete", "/items/{id}", [ops.param("id", "path", True, "integer")], None, {"204": "none"}, ["admin"], "deleteItem"),
+              ops.op("get", "/ping", [], None, {"204": "none"}, ["misc"], "ping")]
+        return doc, cs
+    if case.get("special") == "same-id":
+        cs = [ops.op("get", f"/res{i}", [], None, {"204": "none"}, [f"r{'abcdef'[i]}", "directory"], "list") for i in range(case["n"])]
+        doc, meta = ops.build_doc(cs, auto_tag=False, auto_id=False, prefix=False)
+        return doc, cs
     if "shapes" in case:
         cs = [dict(c) for c in case["shapes"]]
         doc, meta = ops.build_doc(cs, refs=bool(case.get("refs")))
@@ -158,6 +178,8 @@ def run_case(case):
     doc, cs = build(case)
     if "shapes" in case:
         label = "shapes=" + " ;; ".join(ops.describe(c) for c in case["shapes"]) + ("|via-component-refs" if case.get("refs") else "")
+    elif "special" in case:
+        label = f"special={case['special']}" + (f"|n={case['n']}" if "n" in case else "")
     elif "routes" in case:
         label = f"routes={case['routes']}|{case['strategy']}"
     else:
